@@ -111,12 +111,13 @@ func (inv *Invoice) Validate() error {
 func (inv *Invoice) ValidateWithContext(ctx context.Context) error {
 	ctx = inv.validationContext(ctx)
 
-	var exRule validation.Rule
-	exRule = validation.Skip
-	if r := inv.RegimeDef(); r != nil {
-		// regime specific additions for validation
-		exRule = currency.CanConvertInto(inv.ExchangeRates, r.Currency)
-	}
+	// regime specific additions for validation; without a regime there is
+	// no currency to convert into, but the code itself is still checked.
+	r := inv.RegimeDef()
+	exRule := validation.When(
+		r != nil,
+		currency.CanConvertInto(inv.ExchangeRates, r.GetCurrency()),
+	)
 
 	return tax.ValidateStructWithContext(ctx, inv,
 		validation.Field(&inv.Regime),
